@@ -97,7 +97,8 @@ def r1_stream_paths(chk, fx, kind, b):
         return None
     paths = [p for p in A.Interp(fx, hook=hook, crates=("netconf",), max_paths=3000, havoc_loops=True).explore(b.name) if p.end != "abort"]
     X = "async-ready(«READ»).await→Ok.0"
-    n = 0
+    n = n_zero = 0
+    undecided = []
     for p in paths:
         rd = [i for i, e in enumerate(p.trace) if e[0] == "read"]
         if not rd:
@@ -136,11 +137,15 @@ def r1_stream_paths(chk, fx, kind, b):
             if some == {not t0}:
                 # the comparison separates zero from every other count
                 zero = (v == t0) if zero is None else zero
+        for k, v in p.assume.items():
+            # NonZeroUsize::new(n): None exactly for n = 0
+            if k.startswith("variant:NonZero::new(") and k.endswith(X + ")") and v in ("None", "Some"):
+                zero = (v == "None") if zero is None else zero
         if zero is None:
-            chk.instance("C07/R1", "%s: byte count returned by the read is compared with zero" % kind, b.name, at, holds=p.end != "iter-end",
-                         key="C07/R1 %s byte-count-unchecked" % fn,
-                         detail="at end of stream read_buf returns Ok(0) for ever: the loop spins and never returns an error")
+            undecided.append((p, at))
             continue
+        if zero:
+            n_zero += 1
         if not zero:
             continue
         chk.instance("C07/R1", "%s: a zero-byte read (end of stream) leaves the receive loop (explored path)" % kind, b.name, at, holds=p.end in ("return", "fallthrough"),
@@ -152,58 +157,19 @@ def r1_stream_paths(chk, fx, kind, b):
             chk.instance("C07/R1", "%s: end of stream is reported without waiting for anything else (explored path)" % kind, b.name, at, holds=len(waits) <= 1,
                          key="C07/R1 %s eof-path-awaits" % fn,
                          detail=None if len(waits) <= 1 else "a suspension point lies between the zero-byte read and the error return")
+    # a path that goes round again without having decided the count is fine when the zero case was split off before it (`match n { 0 =>
+    # .., len => .. }`: the second arm says nothing about n, the first took n = 0 away); it is the defect when no path handles zero
+    for (p, at) in undecided:
+        chk.instance("C07/R1", "%s: byte count returned by the read is compared with zero" % kind, b.name, at, holds=p.end != "iter-end" or n_zero > 0,
+                     key="C07/R1 %s byte-count-unchecked" % fn,
+                     detail="at end of stream read_buf returns Ok(0) for ever: the loop spins and never returns an error")
+    chk.instance("C07/R1", "%s: a zero-byte read is handled on some path (%d)" % (kind, n_zero), b.name, None, holds=n_zero > 0, key="C07/R1 %s byte-count-unchecked" % fn)
     chk.floor("C07/R1 %s explored paths with a read" % kind, n, 2)
 
 
 def r1_stream(chk, fx, kind, b):
     chk.analysed(b.name)
-    fn = "transport::%s::Receiver::recv" % kind
     r1_stream_paths(chk, fx, kind, b)
-    reads = b.calls_to("AsyncReadExt::read_buf", "AsyncReadExt::read", user_only=True)
-    if not reads:
-        chk.instance("C07/R1", "%s: the read is made by a helper of recv: decided on the explored paths alone" % kind, b.name, None, holds=True)
-        return
-    chk.call_sites += len(reads)
-    loops = [b.natural_loop(h) for h in b.loop_heads()]
-    for r in reads:
-        if not any(r.bb in lp for lp in loops):
-            chk.instance("C07/R1", "%s: read is not in a loop" % kind, b.name, r.loc(), holds=True)
-            continue
-        e = b.ok_edge_of(r)
-        chk.instance("C07/R3", "%s: read error is propagated with `?`" % kind, b.name, r.loc(), holds=e is not None,
-                     key="C07/R3 %s read-error-not-propagated" % fn)
-        if e is None:
-            continue
-        c, cont, brk = e
-        cnt = b.forward_taint([c.dest["l"]], through_call=lambda x: False)
-        # restrict to usize-typed locals
-        cnt = {l for l in cnt if b.local_ty(l) == "usize"}
-        edges = zero_edges(b, cnt)
-        if not edges:
-            chk.instance("C07/R1", "%s: byte count returned by read_buf is compared with zero" % kind, b.name, r.loc(),
-                         holds=False, key="C07/R1 %s byte-count-unchecked" % fn,
-                         detail="at end of stream read_buf returns Ok(0) for ever: the loop spins and never returns an error")
-            continue
-        ok = False
-        for (sw, tgt, loc) in edges:
-            reach = b.reachable(tgt)
-            if r.bb not in reach and b.dominates(cont, sw):
-                ok = True
-        chk.instance("C07/R1", "%s: a zero-byte read (end of stream) leaves the receive loop" % kind, b.name, r.loc(), holds=ok,
-                     key="C07/R1 %s eof-stays-in-loop" % fn)
-        # and what it leaves with is an error
-        if ok:
-            for (sw, tgt, loc) in edges:
-                reach = b.reachable(tgt)
-                oks = [bi for (bi, si, s) in b.ok_aggs() if bi in reach and not path_through(b, tgt, bi, r.bb)]
-                chk.instance("C07/R1", "%s: end of stream is reported as an error, not as a message" % kind, b.name, loc,
-                             holds=not oks, key="C07/R1 %s eof-reported-as-ok" % fn)
-                # .. and at once: nothing is awaited between seeing end-of-stream and returning (the peer is gone; whatever else the
-                # code would wait for — the child process to exit, a lock, a timer — may never happen)
-                waits = [bi for (bi, _) in b.yields() if bi in reach]
-                chk.instance("C07/R1", "%s: end of stream is reported without waiting for anything else" % kind, b.name, loc,
-                             holds=not waits, key="C07/R1 %s eof-path-awaits" % fn,
-                             detail=None if not waits else "a suspension point lies between the zero-byte read and the error return")
 
 
 def path_through(b, src, dst, via):
@@ -233,7 +199,8 @@ def r2_pump(chk, fx, b):
             if ty in ("std::option::Option<russh::ChannelMsg>", "std::option::Option<bytes::Bytes>"):
                 # the outcome of awaiting a queue / the channel inside select! — not the Option a private helper of this crate returned
                 org = b.backward_origins(pl["l"], through_call=lambda c: False)
-                from_helper = any(o["k"] == "call" and o["call"] is not None and ((o["call"].rdef in fx.mir) or (o["call"].defn in fx.mir)) for o in org)
+                from_helper = any(o["k"] == "call" and o["call"] is not None and ((o["call"].rdef in fx.mir) or (o["call"].defn in fx.mir) or o["call"].is_fn("Iterator::next"))
+                                  for o in org)
                 if from_helper:
                     continue
                 watch = ("None", 0)
